@@ -57,7 +57,7 @@ func (e *env) ticketCases() {
 		e.ticketCase(Case{Kind: "tickets", Seed: e.seed, Ops: h})
 	}
 	rng := vlib.NewRng(e.seed ^ 0x71c4e7)
-	n := e.r.Scale(10, 160)
+	n := e.r.Scale(30, 160)
 	for i := 0; i < n; i++ {
 		var h []TOp
 		for j, m := 0, rng.Range(4, 14); j < m; j++ {
